@@ -34,6 +34,14 @@ def closures(tier: str) -> List[Dict[str, Any]]:
         if "extra" in c or c["core"] or tier == "thorough" or n % 18 == 0:
             out.append({"files": defx.Program(c15.case_files(c)).to_json()["files"], "kw": {"import_coredefs": c["core"]}, "label": c15._describe(c),
                         "feats": c15.features(c["defs"]) if "defs" in c else c15.EXTRA_FEATURES.get(c["extra"], [])})
+    # a family of closures that share every expression TEXT but not the constant it refers to: compiled in one process after
+    # one another (in a different order in each run), so that state leaking from one compilation into the next shows up
+    for k in (2, 5, 3):
+        files = {"root.yaml": {"imports": ["consts.yaml"], "constants": {"LEN": "BASE * 2", "LEN3": "LEN + BASE"},
+                               "struct_defs": {"BLK": {"fields": {"a": "int32[LEN]", "b": "double[BASE]", "c": "char[LEN3 + 1]"}}},
+                               "message_defs": {"FAM": {"id": 4400, "fields": {"blk": "BLK[BASE]", "n": "int16[LEN3]"}}}},
+                 "consts.yaml": {"constants": {"BASE": k}}}
+        out.append({"files": defx.Program(files).to_json()["files"], "kw": {"import_coredefs": False}, "label": f"expression family BASE={k}", "feats": [], "family": True})
     seqs = c04.sequences("quick")[:: 40]
     prog, _ = c04.batch_program(seqs, 2)
     out.append({"files": prog.to_json()["files"], "kw": {}, "label": "packed C04-style program (diamond imports)", "feats": []})
@@ -50,7 +58,8 @@ def run_group(args) -> List[Dict[str, Any]]:
         specs = []
         for run, (seed, cwd) in enumerate((("0", "w0"), ("271828", "w1/nested/deeper"))):
             cases = []
-            for k, cl in enumerate(group):
+            # the second run compiles the closures of the group in reverse order: history must not matter
+            for k, cl in (list(enumerate(group)) if run == 0 else list(enumerate(group))[::-1]):
                 cases.append({"id": k, "files": cl["files"], "src": os.path.join(base, f"run{run}", f"s{k}", "x" * run, "src"),
                               "out": os.path.join(base, f"run{run}", f"o{k}" + ("_other" * run)), "name": "gen", "kw": cl["kw"], "black": True})
             spec = {"cwd": os.path.join(base, cwd), "cases": cases}
@@ -61,6 +70,7 @@ def run_group(args) -> List[Dict[str, Any]]:
             r = subprocess.run([sys.executable, "-m", "vf.compile_many", sp], capture_output=True, text=True, env=env, cwd=core.VERIF)
             if r.returncode != 0:
                 raise core.HarnessError("compile_many failed: " + r.stderr[-600:])
+            cases.sort(key=lambda cs: cs["id"])
             specs.append((cases, json.loads(r.stdout.strip().splitlines()[-1])))
         for k, cl in enumerate(group):
             probs = []
@@ -193,7 +203,9 @@ def run(tier: str) -> int:
                      "outputs; combined YAML recompiled through the CLI: signature equality; regenerated vs shipped core_defs.py. "
                      "Distinct non-trivial = closures with more than one file or a cross-definition reference.")
     cls = closures(tier)
-    groups = [(i, g) for i, g in enumerate(core.chunks(core.shuffled(cls, "c16"), 12))]
+    fam = [c for c in cls if c.get("family")]
+    rest = core.shuffled([c for c in cls if not c.get("family")], "c16")
+    groups = [(i, g) for i, g in enumerate([fam + rest[:6]] + core.chunks(rest[6:], 12))]
     res = core.pmap(run_group, groups)
     core.close_pool()
     order = [c for _, g in groups for c in g]
